@@ -950,6 +950,13 @@ def run(tier: str, seed: int, replay: str | None = None) -> int:
     max_ops = 12 if tier == "quick" else 16
     hcases = hashseed_cases(seed, 12 if tier == "quick" else 200)
     ccases = constgroup_cases(seed, (60 if tier == "quick" else 600) * scale)
+    skip = set(filter(None, os.environ.get("VERIF_C08_SKIP", "").split(",")))   # self-test trials of history mutations only: skip the slow side streams
+    if "hs" in skip:
+        hcases = []
+    if "cg" in skip:
+        ccases = []
+    if skip:
+        chk.notes.append("streams skipped on request (VERIF_C08_SKIP, self-test trials only): " + ",".join(sorted(skip)))
     if replay:
         hcases, ccases = [], []
         rc = json.loads(Path(replay).read_text())["violation"].get("case", {})
@@ -965,7 +972,7 @@ def run(tier: str, seed: int, replay: str | None = None) -> int:
             cases, cjobs = [], cli_jobs(seed, tier)
     else:
         cases = corpus_cases() + gen_cases(seed, n, max_ops)
-        cjobs = cli_jobs(seed, tier)
+        cjobs = [] if "cli" in skip else cli_jobs(seed, tier)
     for c in cases:     # older corpus / replay files: the ignore file is always part of the path universe
         if oc.IGNORE_NAME not in c["proj"]["paths"]:
             _add_ignore_path(c)
